@@ -387,6 +387,8 @@ def api_verified(ctx, rule):
     # structural obligations first: they stand even when the interpretation below cannot go through
     from .configtime import config_at_call_time
     config_at_call_time(ctx, rule, classes=('Unit', 'Substance'))
+    from .configtime import late_binding_closures
+    late_binding_closures(ctx, rule, classes=('Unit', 'Substance'))
     convert_from_cells(ctx, rule)
     wrappers(ctx, rule)
     storage_pair(ctx, rule, rule)
